@@ -140,8 +140,30 @@ def near_closed_docs(tier):
                 yield f'<svg {G.NS} viewBox="{vb}"><path d="{d}" fill="red"/><g opacity=".5"><path d="{d}" fill="blue" transform="translate(3 3)"/><rect x="{x0!r}" y="{y0!r}" width="4" height="4"/></g></svg>'
 
 
+def fading_docs(tier):
+    """1-6 nested translucent groups whose innermost shapes fade out when opacities are multiplied and rounded, level by level
+    (each flattening exposes the next): the tidy-up must run to its fixed point however deep the nesting"""
+
+    def rect(x, y, o):
+        return f'<rect x="{x}" y="{y}" width="20" height="20" opacity="{o}"/>'
+
+    for levels in range(1, 7 if tier == "quick" else 9):
+        for g, fading, survivor, top in (("0.02", ("0.02", "0.0004"), "0.7777", "0.33"), ("0.2", ("0.2", "0.04"), "0.77", "0.33"), ("0.06", ("0.06", "0.004"), "0.777", "0.33"), ("0.5", ("0.5", "0.9"), "0.5", "0.5")):
+            body = rect(1, 1, fading[0]) + rect(5, 5, fading[1])
+            body = f'<g opacity="{g}">{body}</g>'
+            for i in range(levels - 2):
+                body = f'<g opacity="{g}">{body}{rect(30 + 4 * i, 30, fading[0])}</g>'
+            if levels >= 2:
+                body = f'<g opacity="{top}">{body}{rect(60, 60, survivor)}</g>'
+            else:
+                body = body[: -len("</g>")] + rect(60, 60, survivor) + "</g>"
+            yield f'<svg {G.NS} viewBox="0 0 100 100">{body}</svg>'
+
+
 def corpus(tier, seed):
     """yield (source-label, document) - the union of the other checks' enumerated corpora"""
+    for d in fading_docs(tier):
+        yield "FADING", d
     for d in near_closed_docs(tier):
         yield "NEARCLOSED", d
     from mc.gen import big
@@ -200,7 +222,7 @@ def cases(tier, seed):
             nds = [3] if k % 4 else [0, 1, 2, 3, 4, 5, 6]
         if src.startswith("F:"):
             nds = [3, 0, 6] if tier == "quick" else [0, 1, 2, 3, 4, 5, 6]
-        if src == "NEARCLOSED":
+        if src in ("NEARCLOSED", "FADING"):
             nds = [0, 1, 2, 3, 4, 5, 6]
         if src == "BIG":
             nds = [0, 1, 3, 6]
@@ -221,7 +243,7 @@ def cases(tier, seed):
 def run(run):
     run.rule = (
         "E1 on the conversion function: roots = the enumerated corpora of C01 (all single kinds, all pairs of base kinds, root attribute), C08 (reference sharing), "
-        "near-closed contours (last point 1e-9 .. 0.4 off the start, coordinates around 0, 1e3, 1e6, 1e9; all ndigits), all authored orders of 4 gradients in defs with one unused / one replaced by a transformed copy (2 id sets), the rendering checks' corpora (C02-C06, C19) and every svg file under /repo/tests; options: default, plus drop_unsupported=True on documents with unsupported elements and allow_text (+drop_unsupported) on documents with text; ndigits 3 (and 0) everywhere, all of 0..6 on every 16th (quick) / 4th (thorough) "
+        "1-6 nested translucent groups whose contents fade out level by level (all ndigits), 18 larger documents (mc/gen/big.py), near-closed contours (last point 1e-9 .. 0.4 off the start, coordinates around 0, 1e3, 1e6, 1e9; all ndigits), all authored orders of 4 gradients in defs with one unused / one replaced by a transformed copy (2 id sets), the rendering checks' corpora (C02-C06, C19) and every svg file under /repo/tests; options: default, plus drop_unsupported=True on documents with unsupported elements and allow_text (+drop_unsupported) on documents with text; ndigits 3 (and 0) everywhere, all of 0..6 on every 16th (quick) / 4th (thorough) "
         "root and on the repository files. From each root: root -> out1 -> out2 -> out3. Oracle: out2 == out1 and out3 == out2 byte for byte; "
         "SVG.fromstring(out1).checkpicosvg() == (). states = distinct documents seen, transitions = conversions. Non-trivial = root converts and out1 != root."
     )
